@@ -208,11 +208,16 @@ def run(tier):
     res = core.Result("C02", tier)
     run_e1(res, tier)
     run_e2(res, tier)
+    # contracts using chain-custom types with bridged interfaces are contracts too: the same
+    # "handler's own outcome, untouched" oracle on the custom family (shared with C11)
+    from . import c11
+    c11.run_e2(res, tier)
     res.cov["rule"] = ("E1: for every program of the C01 grammar, every arm of every generated `dispatch` (variant -> callee, field binders -> "
                        "argument positions, one arm per variant).  E2: every handler of every kind of the `basic` corpus x every tuple of alphabet "
                        "values in a base context, plus the first tuples x 3 further contexts (sender, funds, height, contract address, storage probe, "
                        "api prefix, querier balance all varied) x {Ok, Err via storage flag}, dispatched through the contract-level wrapper and the "
                        "part's own message type; oracle = model echo record, exact response, exact error value, exact storage delta. "
+                       "The custom family (contracts with chain-custom types and bridged interfaces returning rich responses) is replayed with the same oracle against native twins. "
                        "non-trivial = (program, handler, document, context) reaching a handler")
     res.assumptions += ["echo handlers observe api via addr_validate of a cosmwasm-prefixed address and the querier via a bank balance, both "
                         "seeded differently per context",
